@@ -24,11 +24,32 @@ import (
 const base = "github.com/emitter-io/emitter/internal/verifx/engine/"
 
 func main() {
-	if len(os.Args) != 3 {
-		fmt.Println("usage: rewrite <in.go> <out.go>")
+	// options (before the two file arguments):
+	//   -nofunclit      do not put yields inside function literals (closures run inside a library's transaction
+	//                   hold that library's real lock: a thread parked there would block the others for real)
+	//   -atomic=a,b,c   do not put yields inside the named functions/methods
+	noFuncLit := false
+	atomicFuncs := map[string]bool{}
+	args := os.Args[1:]
+	for len(args) > 0 && strings.HasPrefix(args[0], "-") {
+		switch {
+		case args[0] == "-nofunclit":
+			noFuncLit = true
+		case strings.HasPrefix(args[0], "-atomic="):
+			for _, n := range strings.Split(strings.TrimPrefix(args[0], "-atomic="), ",") {
+				atomicFuncs[n] = true
+			}
+		default:
+			fmt.Println("unknown option", args[0])
+			os.Exit(2)
+		}
+		args = args[1:]
+	}
+	if len(args) != 2 {
+		fmt.Println("usage: rewrite [-nofunclit] [-atomic=f,g] <in.go> <out.go>")
 		os.Exit(2)
 	}
-	in, out := os.Args[1], os.Args[2]
+	in, out := args[0], args[1]
 	fset := token.NewFileSet()
 	f, err := parser.ParseFile(fset, in, nil, parser.ParseComments)
 	if err != nil {
@@ -95,7 +116,9 @@ func main() {
 	visitExprFuncs := func(n ast.Node) {
 		ast.Inspect(n, func(m ast.Node) bool {
 			if fl, ok := m.(*ast.FuncLit); ok {
-				visitBlock(fl.Body)
+				if !noFuncLit {
+					visitBlock(fl.Body)
+				}
 				return false
 			}
 			// do not descend into nested statements here; they are handled by visit
@@ -151,8 +174,13 @@ func main() {
 	for _, d := range f.Decls {
 		switch x := d.(type) {
 		case *ast.FuncDecl:
-			visitBlock(x.Body)
+			if !atomicFuncs[x.Name.Name] {
+				visitBlock(x.Body)
+			}
 		case *ast.GenDecl:
+			if noFuncLit {
+				continue
+			}
 			// function literals in package-level var initialisers (e.g. sync.Pool New)
 			ast.Inspect(x, func(m ast.Node) bool {
 				if fl, ok := m.(*ast.FuncLit); ok {
